@@ -199,6 +199,39 @@ static InstResult default_insert() {
 	return r;
 }
 
+// Erasing while walking (the drain / filter idiom, single-threaded): the iterator stands on key k, the caller erases k (or
+// not) and advances.  Every present key must still be visited exactly once, in ascending order, whichever subset of the
+// visited keys is erased on the way.  Keys: every subset of six slots of one leaf, optionally a key in a later leaf.
+static InstResult filtering_walk() {
+	InstResult r; r.name = "radix-erase-while-iterating"; r.complete = true;
+	using TT = frg::rcu_radixtree<uint64_t, BumpAlloc>;
+	const uint64_t base = 0x4000, far = 0x9000;
+	for(unsigned present = 1; present < 64; present++) for(unsigned erase = 0; erase < 64; erase++) for(int with_far = 0; with_far < 2; with_far++) {
+		if(erase & ~present) continue;
+		r.evaluations++; r.distinct++;
+		world_reset(); arena_top = 0;
+		TT t{BumpAlloc{}};
+		std::vector<uint64_t> want;
+		for(int i = 0; i < 6; i++) if(present >> i & 1) { *t.insert(base + i * 2) = base + i * 2; want.push_back(base + i * 2); }
+		if(with_far) { *t.insert(far) = far; want.push_back(far); }
+		std::vector<uint64_t> seen; size_t guard = 0;
+		for(auto it = t.begin(); it != t.end(); ++it) {
+			if(++guard > 16) break;
+			uint64_t k = *it;
+			seen.push_back(k);
+			if(k >= base && k < base + 12 && (erase >> ((k - base) / 2) & 1)) t.erase(k);
+		}
+		if(seen != want) {
+			char b[160]; snprintf(b, sizeof b, "walk over slots %#x of a leaf%s, erasing the visited slots %#x on the way, visited %zu keys instead of %zu", present, with_far ? " + a later leaf" : "", erase, seen.size(), want.size());
+			r.add_violation({"C09", "radix:iteration:erase-while-walking", b}, "filtering walk"); return r;
+		}
+	}
+	pending().reset();
+	r.samples.push_back("erase-while-iterating: 63 slot subsets x every subset of them erased when visited x {with, without} a later leaf");
+	r.states = r.distinct; r.transitions = r.evaluations;
+	return r;
+}
+
 static std::vector<Instance> instances(const std::string &tier) {
 	bool th = tier == "thorough";
 	std::vector<std::vector<uint64_t>> subs;
@@ -232,6 +265,9 @@ static std::vector<Instance> instances(const std::string &tier) {
 		inst.replay = [](const std::string &) { return 3; };
 		v.push_back(inst);
 	}
+	{ Instance e; e.name = "radix-erase-while-iterating"; e.run = [](const std::vector<CrashInfo> &) { return filtering_walk(); };
+	  e.replay = [](const std::string &) { InstResult r = filtering_walk(); for(auto &x : r.violations) printf("REPLAY-VIOLATION property=%s sig=%s: %s\n", x.prop.c_str(), x.sig.c_str(), x.msg.c_str()); return (int)r.violations.size(); };
+	  v.push_back(e); }
 	{ Instance e; e.name = "radix-default-insert-trivial"; e.run = [](const std::vector<CrashInfo> &) { return default_insert(); };
 	  e.replay = [](const std::string &) { InstResult r = default_insert(); for(auto &x : r.violations) printf("REPLAY-VIOLATION property=%s sig=%s: %s\n", x.prop.c_str(), x.sig.c_str(), x.msg.c_str()); return (int)r.violations.size(); };
 	  v.push_back(e); }
